@@ -88,6 +88,18 @@ def step (op : String) (args : List String) : Option String :=
     pure (match remoteToRPC trunk vs as with
       | none => "nil"
       | some cs => if cs.isEmpty then "empty" else " ".intercalate (cs.map confStr))
+  | "crd", pod :: enis => do
+    -- eni: id/inUse/ip:valid:pod,…  (ip decimal)
+    let es ← enis.mapM fun t =>
+      match t.splitOn "/" with
+      | [id, u, ips] => do
+        let l ← (if ips = "-" then some [] else (ips.splitOn ",").mapM fun x =>
+          match x.splitOn ":" with
+          | [ip, v, p] => do pure ((← ip.toNat?), (← bool? v), (if p = "-" then "" else p))
+          | _ => none)
+        pure ({ id := id, inUse := (← bool? u), ips := l } : CrdEni)
+      | _ => none
+    pure ((crdOwner es pod).getD "none")
   | "dp", [t, strip, trunk] => do
     pure (dpStr (getDataPath (← ipType? t) (← strip? strip) (← bool? trunk)))
   | "parse", [t, strip, argIf, pi, pe, ri, re, conf] => do
